@@ -18,13 +18,11 @@ PAIRS = [(None, 'NONE'), ('CAMEL', 'CAMEL'), ('PASCAL', 'PASCAL'), ('KEBAB', 'LI
 
 
 def strip_shapes(t, indexed=False):
-    """avoid the shapes recorded as known findings for the *correspondence* stream: a fixed-length tuple at an
-    indexed position (inside NamedTuple / TypedDict / fixed tuple) and the value-`None` annotation"""
+    """avoid the shapes recorded as known findings for the *correspondence* stream: the value-`None` annotation
+    (a fixed-length tuple at an indexed position was avoided too until repair f3aedfc)"""
     k = t['k']
     if k == 'none':
         return {'k': 'optional', 'a': [{'k': 'int'}]}
-    if k == 'tuple' and indexed:
-        return {'k': 'vtuple', 'a': [strip_shapes(t['a'][0] if t.get('a') else {'k': 'int'}, False)]}
     if k == 'optional':
         t['a'] = [strip_shapes(t['a'][0], indexed)]
         return t
